@@ -668,6 +668,70 @@ def translate(name, source=None):
     return FnTranslator(tree, fns[0], spec, name).translate()
 
 
+# ---------------------------------------------------------------- self-test of the fail-closed behaviour
+SELFTEST_OK = """
+import numpy
+def f(r, n=None):
+    A = numpy.zeros(n, dtype=complex)
+    T = r[1:]
+    for k in range(0, n):
+        A[k] = T[k] * 2. - abs(r[k]) ** 2
+        if A[k].real <= 0:
+            raise ValueError('x')
+    return A, T
+"""
+SELFTEST_BAD = [            # (what, old, new): each edit must make the translator refuse
+    ('store into a parameter', "        A[k] = T[k]", "        r[k] = 1\n        A[k] = T[k]"),
+    ('store into a slice view', "        A[k] = T[k]", "        T[k] = 1\n        A[k] = T[k]"),
+    ('alias, then store', "    T = r[1:]", "    T = r[1:]\n    B = A\n    B[0] = 1"),
+    ('while loop', "    for k in range(0, n):", "    k = 0\n    while k < n:"),
+    ('unknown numpy call', "T[k] * 2.", "numpy.sqrt(T[k]) * 2."),
+    ('unknown call', "T[k] * 2.", "g(T[k]) * 2."),
+    ('print statement', "        A[k] = T[k]", "        print(k)\n        A[k] = T[k]"),
+    ('power other than 2', "** 2", "** 3"),
+    ('non-dyadic literal', "* 2.", "* 2.0000001"),
+    ('tolerance literal', "<= 0", "<= 1e-12"),
+    ('dtype expression', "dtype=complex", "dtype=r.dtype"),
+    ('2-D array', "numpy.zeros(n,", "numpy.zeros((n, n),"),
+    ('slice store', "        A[k] = T[k]", "        A[0:1] = T[0:1]\n        A[k] = T[k]"),
+    ('tuple assignment', "    T = r[1:]", "    T, U = r[1:], r"),
+    ('augmented assignment on a shared array', "    T = r[1:]", "    T = r[1:]\n    T += 1"),
+    ('try block', "    T = r[1:]", "    try:\n        T = r[1:]\n    except Exception:\n        T = r"),
+    ('lambda', "    T = r[1:]", "    T = r[1:]\n    h = lambda z: z"),
+    ('star args', "def f(r, n=None):", "def f(r, n=None, *rest):"),
+    ('non-literal default', "def f(r, n=None):", "def f(r, n=len):"),
+    ('chained comparison', "if A[k].real <= 0:", "if 0 <= A[k].real <= 0:"),
+    ('imaginary literal', "* 2.", "* 2j"),
+    ('unknown exception class', "raise ValueError('x')", "raise RuntimeError('x')"),
+    ('call inside a message', "raise ValueError('x')", "raise ValueError(str(A.resize(3)))"),
+]
+
+
+def translator_selftest():
+    """the names of the self-test edits that the translator wrongly accepts (must be empty), or a failure of the base case"""
+    spec = dict(module='selftest')
+
+    def tr(src):
+        tree = ast.parse(src)
+        fn = [n for n in tree.body if isinstance(n, ast.FunctionDef)][0]
+        return FnTranslator(tree, fn, spec, 'f').translate()
+    try:
+        tr(SELFTEST_OK)
+    except Untranslatable as e:
+        return ['base case rejected: %s' % e]
+    bad = []
+    for what, old, new in SELFTEST_BAD:
+        assert old in SELFTEST_OK, what
+        try:
+            tr(SELFTEST_OK.replace(old, new, 1))
+            bad.append(what)
+        except Untranslatable:
+            pass
+        except SyntaxError as e:     # pragma: no cover
+            bad.append('%s (self-test edit does not parse: %s)' % (what, e))
+    return bad
+
+
 # ============================================================================================== the tie
 GEN_HEADER = """From Coq Require Import String ZArith List.
 Require Import Spectrum.Model.LoopIR.
@@ -862,7 +926,7 @@ def gen_TOEPLITZ(rng, n, nimpl):
     c = Cases('TOEPLITZ')
     while len(c.exact) < n:
         p = int(rng.integers(1, 6))
-        T0 = complex(4 + rng.integers(0, 12)); TC = lowbit(rng, p, True, bits=2); TR = lowbit(rng, p, True, bits=2)
+        T0 = complex(8 + rng.integers(0, 8)); TC = lowbit(rng, p, True, bits=2); TR = lowbit(rng, p, True, bits=2)
         if rng.integers(0, 3) == 0:
             TR = np.conj(TC)
         if rng.integers(0, 5) == 0:
@@ -877,7 +941,9 @@ def gen_TOEPLITZ(rng, n, nimpl):
             TC = TC[:0]; TR = TR[:0]; Z = Z[:1]
         res = call_impl(TOEPLITZ, T0, TC, TR, Z)
         c.add('q_toeplitz prog_TOEPLITZ %s %s %s %s' % (cz(T0), czl(TC), czl(TR), czl(Z)), impl=res, T0=str(T0), TC=vlib.hexv(TC), TR=vlib.hexv(TR), Z=vlib.hexv(Z))
-        if len(c.impl) < nimpl:
+        # vs the implementation: argument checks, and well-conditioned systems with a large diagonal only (a singular leading minor is
+        # decided by the sign of a rounded P in the implementation, and numpy orders COMPLEX P lexicographically where le0 reads the real part)
+        if len(c.impl) < nimpl and (sp in (11, 12, 13) or (T0.real >= 8 and res[1] is None)):
             out, ex = res
             args = '[%s; %s; %s; %s]' % (S_(T0), A_(False, TC), A_(False, TR), A_(False, Z))
             if ex is not None:
@@ -981,7 +1047,7 @@ def gen_arburg(rng, n, nimpl):
         for tag in tags:
             c.add('q_arburg %s prog_arburg %s %s (%d) %s' % (stop, 'true' if tag else 'false', czl(x), p, opt(None if crit is None else '"%s"' % crit)),
                   impl=res, x=vlib.hexv(x), order=p, criteria=crit, stop=stop, declared_real=tag)
-        if len(c.impl) < nimpl and crit is None:
+        if len(c.impl) < nimpl and crit is None and sp != 6:
             out, ex = res
             args = '[%s; %s; Omit]' % (A_(not cplx, x), I_(p))
             if ex is not None:
@@ -1131,6 +1197,10 @@ def loopir_tie(ctx, names):
     hand-written model exactly (zero tolerance, inside Coq at QcC) and with the implementation's float output."""
     t0 = time.time()
     info = ctx.extra.setdefault('loopir', {})
+    wrong = translator_selftest()
+    info['translator_selftest'] = {'edits_that_must_be_rejected': len(SELFTEST_BAD), 'wrongly_accepted': wrong}
+    if wrong:
+        ctx.broken.append({'theorem': 'loopir: translator self-test (fail-closed behaviour)', 'where': '_loopir.py', 'log': '; '.join(wrong)})
     progs = {}
     for nm in names:
         try:
